@@ -116,7 +116,10 @@ claim("C05", "proof",
       "equivalent request that forces buffering.",
       TIE, "Lean 4 refinement theorem (induction over the lines with an invariant on the pending bound) + two-algorithm oracle", "§4 C05")
 claim("C12", "proof",
-      "In the model every Rust panic site is a checked operation yielding Status.panic. Theorems dispatch_no_panic / mainModel_total: for EVERY bounds argument the "
+      "In the model every Rust panic site is a checked operation yielding Status.panic. Program level (Props/MainLevel.lean): tucMain_never_panics — for EVERY argument vector "
+      "(any spelling pico_args accepts, -e RE included), every input and every segmentation, tucMain (parse_args + regex compilation + dispatch) is not a panic and a run ends ok or fail; "
+      "the same file lifts C04 (tucMain_chunk_independent, all argv), C14's writer side (tucMain_deliver_prefix / _cut_fails / _enough), C10 (tucMain_append, every field-mode argv) and C11 "
+      "(tucMain_swap, canonical command lines of all four modes) to the program. Theorems dispatch_no_panic / mainModel_total: for EVERY bounds argument the "
       "parser accepts (parsing itself never panics, for every string), every option set, every input and segmentation, main's dispatch ends with status ok or fail — "
       "general engine (any delimiter incl. empty, all flags), character mode, fast lane, bytes, both -l algorithms, -M; regex delimiters under the find_iter contract. "
       "Range expansion is bounded by the record length, not the index value; fuel of the trim loop provably suffices. The implementation oracle carries what the model "
